@@ -8,6 +8,9 @@
                    missing / empty (Namespace.entrypoint is Optional);
    * [load]        DSLExperimentConfiguration.__init__ (python/experiment/model/conf.py): the loader used by
                    elaunch/etest, with or without user VARIABLE FILES, validate True/False;
+   * [lightweight] lightweight_validate(namespace, override_entrypoint_args): the traversal alone (end of the file),
+                   with [foreign_ref] / [entry_param_ref]: parameter references in the arguments of an instance whose
+                   parent scope has no such parameter - in particular the entry instance, which has no parent;
    * [kind], [entry_kargs], [globals], [var_ok]: the YAML type of a parameter value (string / number / mapping /
                    null), the arguments of the entry instance (defaults, updated by entrypoint.execute[0].args,
                    updated by the override), the global variables the last loop of namespace_to_flowir records for
@@ -241,4 +244,125 @@ Lemma load_files_binding : forall v N g t,
 Proof.
   intros v N g t H. unfold load. simpl. rewrite H. eexists. split; [reflexivity|].
   intro k. rewrite !update_lookup. destruct (lookup k g); [reflexivity|]. destruct (lookup k (n_eargs N)); reflexivity.
+Qed.
+
+(* ------------------------------------------------------------------ lightweight_validate and parameter references
+   in places that have NO enclosing parameter scope
+
+   lightweight_validate(namespace, override_entrypoint_args) (dsl.py): the syntax checks, the per-template checks
+   (references of a component to names that are neither its parameters nor its variables, parameter defaults that
+   hold references - none of which the token fragment can express) and, when there is an entrypoint, the TRAVERSAL
+   ScopeStack.discover_all_instances_of_templates alone - no resolution of values, no naming, no conversion.  On the
+   fragment it is therefore [discover] on the namespace with the overridden entrypoint arguments. *)
+Inductive lw_res :=
+| LwOk                        (* returns None: nothing found *)
+| LwErr (e : list loc)        (* DSLInvalidError: locations *)
+| LwUnsupp.
+Definition lightweight (N : option ns) (ov : option (list (string * value))) : lw_res :=
+  match N with
+  | None => LwOk            (* "can deal with Namespaces which do not have an entrypoint" *)
+  | Some N => match discover (with_eargs N (match ov with None => n_eargs N | Some o => update (n_eargs N) o end)) with
+              | Ok _ => LwOk | Err e => LwErr e | Unsupp => LwUnsupp end
+  end.
+
+Inductive lw_impl := LIOk | LIErr (ls : list loc) | LIExc (s : string).
+Definition check_lw (x : option ns * option (list (string * value)) * lw_impl) : bool :=
+  let '(N, ov, i) := x in
+  match lightweight N ov, i with
+  | LwOk, LIOk => true
+  | LwErr e, LIErr ls => set_eqb loc_eqb e ls
+  | _, _ => false
+  end.
+
+(* the names an argument value of a new scope may refer to: the parameters of the PARENT scope - none at all for the
+   entry instance, whose arguments (entrypoint.execute[0].args, override_entrypoint_args, user variables, declared
+   defaults of the entry template) have no enclosing scope *)
+Definition parent_names (parent : option scope) : list string :=
+  match parent with Some p => map fst (s_pars p) | None => [] end.
+
+(* an argument (supplied or defaulted) of the instance refers to a name that is not a parameter of the parent *)
+Definition foreign_ref (parent : option scope) (t : tmpl) (args : list (string * value)) : Prop :=
+  exists nv p, In nv (fold_defaults (t_params t) args) /\ In p (refs_of (snd nv))
+               /\ mem p (parent_names parent) = false /\ String.eqb p "replica" = false.
+
+Lemma visit_foreign_ref f N anc parent l dsl t args st :
+  d_abort st = false -> foreign_ref parent t args ->
+  has_err (visit (S f) N anc parent l dsl t args st).
+Proof.
+  intros AB [nv [p [I [R [M NR]]]]]. cbn [visit]. rewrite AB.
+  match goal with |- has_err (match ?e with [] => _ | _ :: _ => _ end) => destruct e as [|x xs] eqn:EE end.
+  2:{ left. cbn. apply app_nonempty_r. discriminate. }
+  match goal with |- has_err (match ?e with [] => _ | _ :: _ => _ end) => destruct e as [|y ys] eqn:EU end.
+  2:{ right. cbn. eexists. split; [|reflexivity]. discriminate. }
+  assert (flat_map (fun nv0 : string * value =>
+            flat_map (fun p0 : string =>
+              if mem p0 (match parent with Some p1 => map fst (s_pars p1) | None => [] end) then []
+              else if String.eqb p0 "replica" then []
+              else [match parent with Some p1 => s_dsl p1 | None => [LS "entrypoint"] end])
+            (refs_of (snd nv0))) (fold_defaults (t_params t) args) <> []) as NE.
+  { eapply flat_map_nonempty; [exact I|]. eapply flat_map_nonempty; [exact R|].
+    unfold parent_names in M. rewrite M, NR. discriminate. }
+  destruct t as [w|c].
+  - destruct (exec_entries _ _ _ _ _ _ _) as [[errs chs] seen] eqn:EX.
+    apply fold_visit_has_err. left. cbn. apply app_nonempty_l. apply app_nonempty_r. apply app_nonempty_r. exact NE.
+  - left. cbn. apply app_nonempty_r. apply app_nonempty_r. exact NE.
+Qed.
+
+(* END TO END for the entry instance: its arguments have no enclosing scope, so ANY reference to a parameter in
+   them - an unknown name, a parameter of the entry template itself, a reference nested in more text - is fatal *)
+Definition entry_param_ref (N : ns) : Prop :=
+  exists t, get_template N (n_entry N) = Some t /\ foreign_ref None t (entry_args t (n_eargs N)).
+
+Lemma entry_param_ref_discover N : entry_param_ref N -> forall scs, discover N <> Ok scs.
+Proof.
+  intros [t [T F]]. apply discover_has_err with (t := t); [exact T|].
+  apply visit_foreign_ref; [reflexivity|exact F].
+Qed.
+
+Lemma entry_param_ref_compile N : entry_param_ref N -> forall cis, compile N <> Ok cis.
+Proof.
+  intros H cis C. destruct (compile_ok _ _ C) as [scs0 [D _]]. revert D. apply entry_param_ref_discover. exact H.
+Qed.
+
+Definition ov_eargs (N : ns) (ov : option (list (string * value))) : list (string * value) :=
+  match ov with None => n_eargs N | Some o => update (n_eargs N) o end.
+
+Lemma entry_param_ref_ov N ov :
+  entry_param_ref (with_eargs N (ov_eargs N ov)) -> forall cis, compile_ov (Some N) ov <> Ok cis.
+Proof. intros H cis. unfold compile_ov. apply entry_param_ref_compile. exact H. Qed.
+
+Lemma entry_param_ref_load v N g :
+  entry_param_ref (with_eargs N (update (n_eargs N) (update (n_eargs N) g))) ->
+  forall cis, load v (Some N) (Files (Some g)) <> Ok cis.
+Proof.
+  intros H cis. destruct H as [t [T F]]. pose proof T as T'. rewrite get_template_with_eargs in T'. cbn in T'.
+  unfold load. cbn [entry_template]. rewrite T'. apply entry_param_ref_ov. exists t. split; [exact T|exact F].
+Qed.
+
+Lemma entry_param_ref_lightweight N ov :
+  entry_param_ref (with_eargs N (ov_eargs N ov)) -> lightweight (Some N) ov <> LwOk.
+Proof.
+  intros H. unfold lightweight. fold (ov_eargs N ov).
+  destruct (discover (with_eargs N (ov_eargs N ov))) as [scs|e|] eqn:D; try discriminate.
+  exfalso. exact (entry_param_ref_discover _ H _ D).
+Qed.
+
+Lemma lightweight_err_nonempty N ov e : lightweight N ov = LwErr e -> e <> [].
+Proof.
+  unfold lightweight. destruct N as [N|]; [|discriminate].
+  destruct (discover _) as [scs|e0|] eqn:D; try discriminate. intros H; inversion H; subst.
+  eapply discover_err_nonempty; eauto.
+Qed.
+
+(* lightweight validation and compilation agree: what the lightweight validation reports is exactly what the
+   compiler reports (same locations), and it never rejects a namespace the compiler accepts *)
+Lemma lightweight_err_is_compile N ov e : lightweight (Some N) ov = LwErr e -> compile_ov (Some N) ov = Err e.
+Proof.
+  unfold lightweight, compile_ov, compile. destruct (discover _) as [scs|e0|]; try discriminate.
+  intros H; inversion H; reflexivity.
+Qed.
+
+Lemma compile_ok_lightweight N ov cis : compile_ov (Some N) ov = Ok cis -> lightweight (Some N) ov = LwOk.
+Proof.
+  unfold lightweight, compile_ov. intros C. destruct (compile_ok _ _ C) as [scs0 [D _]]. rewrite D. reflexivity.
 Qed.
